@@ -7,3 +7,5 @@ import ElfiVerif.Model.Stats
 import ElfiVerif.Props.C13
 import ElfiVerif.Model.Rejection
 import ElfiVerif.Props.C01
+import ElfiVerif.Model.Distance
+import ElfiVerif.Props.C12
